@@ -31,7 +31,7 @@ def main():
             text, note, ref = claims[p]
             checks.append({"property_id": p, "quick_cmd": f"./check {p} --tier quick", "thorough_cmd": f"./check {p} --tier thorough",
                            "evidence_file": f"/verif/evidence/{p}.json", "replay_cmd_template": "./check --replay {path}", "engine": "pyvc",
-                           "level_claimed": {"category": "proof", "text": text, "design_ref": ref}, "level_note": note, "technique": TECH + TECH_EXTRA.get(pid, "")})
+                           "level_claimed": {"category": "proof", "text": text, "design_ref": ref}, "level_note": note, "technique": TECH + TECH_EXTRA.get(p, "")})
     nal = [{"property_id": p, "reason": na.get(p, "no check built yet in this round (the design in DESIGN.md §4 applies; not claimed until the obligations are generated and discharged)")} for p in props if p not in claims]
     man = {"version": 1, "setup_cmd": "./bin/setup.sh",
            "hooks": {"guard": "PYGRADFLOW_VERIF", "enable": "no hooks: contracts are sidecar files under /verif/contracts, the verifier reads /repo's source", "baseline_off_cmd": "cd /repo && /venv/bin/python -m pytest -ra -q -p no:cacheprovider --timeout=900 --continue-on-collection-errors", "source_commits": [], "add_only": True},
